@@ -20,7 +20,9 @@ import (
 
 	"github.com/BlackVectorOps/semantic_firewall/v3/internal/verifshim/progfam"
 	"github.com/BlackVectorOps/semantic_firewall/v3/internal/verifshim/vh"
+	"github.com/BlackVectorOps/semantic_firewall/v3/pkg/analysis/ir"
 	"github.com/BlackVectorOps/semantic_firewall/v3/pkg/analysis/topology"
+	"github.com/BlackVectorOps/semantic_firewall/v3/pkg/diff"
 	"github.com/BlackVectorOps/semantic_firewall/v3/pkg/models"
 )
 
@@ -282,11 +284,23 @@ func fpRun(t *testing.T, r *vh.Report, prop string) {
 				}
 				os.MkdirAll(filepath.Join(dir, od), 0o755)
 				os.MkdirAll(filepath.Join(dir, nd), 0o755)
+				// generated-code flavour: every third case puts a //line directive in front of the
+				// second function of the new file (and, for even codes, of the old file too)
+				lineDir := func(side string) bool {
+					return (code+2*ai)%3 == 2 && (side == "new" || code%2 == 0)
+				}
+				if lineDir("new") {
+					key += "/line-directive"
+				}
+				side := "old"
 				render := func(fs []fpFunc) string {
 					var l []string
 					seenCalc := false
-					for _, f := range fs {
+					for fi, f := range fs {
 						s := f.src
+						if fi == 1 && lineDir(side) {
+							s = "//line generated.tmpl:100\n" + s
+						}
 						if strings.Contains(s, ") calc(") {
 							if seenCalc {
 								s = s[:strings.Index(s, "func (r0 rec) calc")]
@@ -297,7 +311,9 @@ func fpRun(t *testing.T, r *vh.Report, prop string) {
 					}
 					return progfam.RenderFile(l)
 				}
-				oldSrc, newSrc := render(oldF), render(newF)
+				oldSrc := render(oldF)
+				side = "new"
+				newSrc := render(newF)
 				op, np := filepath.Join(dir, od, "f.go"), filepath.Join(dir, nd, "f.go")
 				os.WriteFile(op, []byte(oldSrc), 0o644)
 				os.WriteFile(np, []byte(newSrc), 0o644)
@@ -585,4 +601,51 @@ func TestVerifC19Similarity(t *testing.T) {
 	}
 	r.Max("max_topologies", int64(len(names)))
 	r.Sample(map[string]interface{}{"topologies": len(names), "pairs": len(names) * len(names)})
+
+	// the threshold is honoured exactly: for every ordered pair of differently named functions of
+	// the family that share a structural bucket, the matcher is run on "old file = {a}", "new file
+	// = {b}" with the threshold set just below, at, and just above their similarity s; they are
+	// paired exactly when s >= threshold, and the similarity it reports is s
+	res, err := diff.FingerprintSource(p, src, ir.DefaultLiteralPolicy)
+	if err != nil {
+		r.Fail("%v", err)
+		return
+	}
+	byName := map[string]diff.FingerprintResult{}
+	for _, x := range res {
+		byName[ShortFunctionName(x.FunctionName)] = x
+	}
+	idx = 0
+	for _, a := range names {
+		for _, b := range names {
+			ra, oka := byName[a]
+			rb, okb := byName[b]
+			if !oka || !okb || a == b || tp[a] == nil || tp[b] == nil || tp[a].FuzzyHash != tp[b].FuzzyHash {
+				continue
+			}
+			idx++
+			if !vh.Mine(idx) {
+				continue
+			}
+			s := topology.TopologySimilarity(tp[a], tp[b])
+			for _, thr := range []float64{math.Nextafter(s, 0) - 1e-9, s, s + 1e-9, s - 0.004, s + 0.004} {
+				if thr <= 0 || thr > 1 {
+					continue
+				}
+				m, added, removed := diff.MatchFunctionsByTopology([]diff.FingerprintResult{ra}, []diff.FingerprintResult{rb}, thr)
+				r.Eval()
+				r.Count("threshold_boundary_checks", 1)
+				paired := len(m) == 1 && len(added) == 0 && len(removed) == 0
+				rp := map[string]interface{}{"a": a, "b": b, "threshold": thr}
+				key := fmt.Sprintf("threshold/%s~%s/%+.0e", a, b, thr-s)
+				if paired != (s >= thr) {
+					r.Violate(key, fmt.Sprintf("%s and %s have structural similarity %v; with threshold %v the matcher paired them: %v (want %v)", a, b, s, thr, paired, s >= thr), rp)
+				}
+				if paired && m[0].Similarity != s {
+					r.Violate(key+"/reported", fmt.Sprintf("%s and %s have structural similarity %v but the match reports %v", a, b, s, m[0].Similarity), rp)
+				}
+			}
+			r.Nontrivial("threshold:" + a + "~" + b)
+		}
+	}
 }
